@@ -10,6 +10,7 @@ use vsim::{
     file_e2e::FileE2e,
     fsim::Fsim,
     otlp_sim::OtlpSim,
+    tokio_recv::TokioReceiver,
     choices::Choices,
     core::{self, BatchCfg, Engine, Part, RunCtx},
 };
@@ -42,6 +43,7 @@ fn engines_for(property: &str) -> Vec<(Box<dyn Engine>, u64, u64)> {
             (Box::new(ChanInline), 1_000_000, 20_000_000),
             (Box::new(ChanThreads), 100_000, 3_000_000),
             (Box::new(CallingContexts), 2400, 12000),
+            (Box::new(TokioReceiver), 800, 8000),
             (Box::new(FileE2e), 30_000, 1_000_000),
             (Box::new(OtlpSim { focus: "C12" }), 15_000, 500_000),
         ],
@@ -49,18 +51,21 @@ fn engines_for(property: &str) -> Vec<(Box<dyn Engine>, u64, u64)> {
             (Box::new(ChanInline), 1_000_000, 20_000_000),
             (Box::new(ChanThreads), 100_000, 3_000_000),
             (Box::new(CallingContexts), 2400, 12000),
+            (Box::new(TokioReceiver), 800, 8000),
             (Box::new(FileE2e), 30_000, 1_000_000),
             (Box::new(OtlpSim { focus: "C12" }), 15_000, 500_000),
         ],
         "C07" => vec![
             (Box::new(ChanInline), 1_000_000, 20_000_000),
             (Box::new(ChanThreads), 100_000, 3_000_000),
+            (Box::new(TokioReceiver), 800, 8000),
             (Box::new(FileE2e), 30_000, 1_000_000),
             (Box::new(OtlpSim { focus: "C12" }), 15_000, 500_000),
         ],
         "C06" => vec![
             (Box::new(ChanInline), 1_000_000, 20_000_000),
             (Box::new(ChanThreads), 100_000, 3_000_000),
+            (Box::new(TokioReceiver), 800, 8000),
             (Box::new(FileE2e), 30_000, 1_000_000),
         ],
         "C03" => vec![(Box::new(CtxFrames), 150_000, 6_000_000)],
@@ -88,6 +93,7 @@ fn engine_by_name(name: &str) -> Option<Box<dyn Engine>> {
         "chan-inline" => Some(Box::new(ChanInline)),
         "chan-threads" => Some(Box::new(ChanThreads)),
         "calling-contexts" => Some(Box::new(CallingContexts)),
+        "tokio-receiver" => Some(Box::new(TokioReceiver)),
         "ctx-frames" => Some(Box::new(CtxFrames)),
         "file-e2e" => Some(Box::new(FileE2e)),
         "fsim-realfs" => Some(Box::new(FsDiff)),
